@@ -13,6 +13,16 @@ def P(src, variant, name, args=None, tiers=('quick', 'thorough'), tier_args=None
 
 
 CHECKS = {
+    'C03': {
+        'engine': 'langx',
+        'rule': 'bounded-exhaustive strings through the escaper and every printing tag position',
+        'parts': [
+            P('props/C03.cpp', 'asan', 'escape-asan', tier_args={'quick': ['--units', '4', '--posunits', '2'], 'thorough': ['--units', '5', '--posunits', '3']}),
+            P('props/C03.cpp', 'fast', 'escape-fast', tier_args={'quick': ['--units', '5', '--posunits', '3'], 'thorough': ['--units', '6', '--posunits', '4']}),
+            P('props/C03.cpp', 'fast+noesc', 'escape-off', tier_args={'quick': ['--units', '4', '--posunits', '2'], 'thorough': ['--units', '5', '--posunits', '3']}),
+        ],
+        'floor': {'quick': 20, 'thorough': 20},
+    },
     'C04': {
         'engine': 'langx',
         'rule': 'flat operator sequences vs exact-arithmetic reference (set-valued where the document is silent)',
